@@ -9,7 +9,8 @@ PROC_TIMEOUT = 1500
 
 RULE = ('schedules of the cooperative scheduler (scheduling points = wrapped pthread calls): for each scenario '
         '(ExecutorThread with 0-3 producers x 0-3 callbacks; FutureImpl raw-pointer pattern; FutureImpl with 0-2 '
-        'extra getter copies) the non-preemptive run, every single preemption (position x thread), pairs of '
+        'extra getter copies; ExecutorThread with callbacks that call Execute again; SelectServer::Execute from 1-3 threads with callbacks that call Execute again, 0-3 RunOnce '
+        'iterations, rest drained by the destructor) the non-preemptive run, every single preemption (position x thread), pairs of '
         'preemptions (all in thorough, sampled in quick), injected spurious wake-ups at every position (alone and '
         'combined with a preemption), and random schedules; non-trivial = the run has >= 1 wait/wake or >= 1 callback '
         'run and ends normally; distinct = distinct model output line (trace of synchronisation operations)')
@@ -29,8 +30,10 @@ def sj(l):
 
 
 SCENARIOS_Q = [('exec -', 30, 2), ('exec 1', 45, 3), ('exec 2', 55, 3), ('exec 1,1', 70, 4), ('exec 2,1', 80, 4),
-               ('exec 0,3', 80, 4), ('futraw', 16, 2), ('futcopy 0', 26, 2), ('futcopy 1', 40, 3), ('futcopy 2', 50, 4)]
-SCENARIOS_T = SCENARIOS_Q + [('exec 3', 65, 3), ('exec 1,1,1', 95, 5), ('exec 2,2', 90, 4), ('exec 3,0,2', 110, 5)]
+               ('exec 0,3', 80, 4), ('futraw', 16, 2), ('futcopy 0', 26, 2), ('futcopy 1', 40, 3), ('futcopy 2', 50, 4),
+               ('execre 1 1', 60, 3), ('execre 2 1', 75, 3), ('execre 1,1 1,1', 90, 4),
+               ('ss 1 1 0', 25, 2), ('ss 2 1 1', 40, 2), ('ss 3 2 0', 40, 2), ('ss 1,1 0,0 1', 40, 3), ('ss 2,1 1,1 2', 60, 3)]
+SCENARIOS_T = SCENARIOS_Q + [('execre 2,1 2,0', 100, 4), ('ss 2,2 2,1 3', 90, 3), ('ss 1,1,1 1,0,1 2', 80, 4), ('exec 3', 65, 3), ('exec 1,1,1', 95, 5), ('exec 2,2', 90, 4), ('exec 3,0,2', 110, 5)]
 
 
 def gen_cases(rng, tier):
